@@ -71,28 +71,33 @@ def main():
     # ---- 1. T-layer ------------------------------------------------------------------
     import trcore
     import fragments  # noqa: F401
-    frag_status = trcore.generate()
-    # ---- 2./3. proofs + audit ----------------------------------------------------------
-    if a.no_lean:
-        lean = common.LeanResult()
-        lean.theorems = ["(skipped)"]
-    else:
-        lean = common.build_and_audit(a.prop, mod.LEAN_MODULE, mod.GEN_FILES, mod.FRAGMENTS,
-                                      frag_status, thorough=thorough)
-    log(f"[{a.prop}] lean: {len(lean.discharged)}/{len(lean.theorems)} obligations discharged "
-        f"({ctx.elapsed():.0f}s)")
-    for t, r in lean.failed.items():
-        log(f"[{a.prop}]   proof broken: {t}: {r}")
-    for fr, r in lean.gen_broken.items():
-        log(f"[{a.prop}]   fragment broken: {fr}: {r}")
+    lock = common.LakeLock()
+    lock.__enter__()          # generation + builds of this check are one critical section
+    try:
+        frag_status = trcore.generate(own=set(mod.FRAGMENTS))
+        # ---- 2./3. proofs + audit ----------------------------------------------------------
+        if a.no_lean:
+            lean = common.LeanResult()
+            lean.theorems = ["(skipped)"]
+        else:
+            lean = common.build_and_audit(a.prop, mod.LEAN_MODULE, mod.GEN_FILES, mod.FRAGMENTS,
+                                          frag_status, thorough=thorough)
+        log(f"[{a.prop}] lean: {len(lean.discharged)}/{len(lean.theorems)} obligations discharged "
+            f"({ctx.elapsed():.0f}s)")
+        for t, r in lean.failed.items():
+            log(f"[{a.prop}]   proof broken: {t}: {r}")
+        for fr, r in lean.gen_broken.items():
+            log(f"[{a.prop}]   fragment broken: {fr}: {r}")
+        drv = None
+        drv_error = None
+        if getattr(mod, "DRIVER", None):
+            drv = common.Driver(mod.DRIVER)
+            if drv.error:
+                drv_error = drv.error
+                log(f"[{a.prop}]   {drv_error}")
+    finally:
+        lock.__exit__(None, None, None)
     # ---- 4. correspondence ---------------------------------------------------------------
-    drv = None
-    drv_error = None
-    if getattr(mod, "DRIVER", None):
-        drv = common.Driver(mod.DRIVER)
-        if drv.error:
-            drv_error = drv.error
-            log(f"[{a.prop}]   {drv_error}")
     if crumb:
         with open(crumb, "w") as fh:
             json.dump({"phase": "corr"}, fh)
